@@ -3,7 +3,7 @@
    world reached by an ARBITRARY op sequence (new / backoff with any observed sleep / clone / fork /
    update-using-forked / reset / reset-max-sleep / cancel / kill), see Model.v. *)
 From Coq Require Import ZArith List Bool.
-From Verif Require Import Backoff.Model Backoff.ProofsBase Backoff.ProofsStep Backoff.ProofsInv Backoff.ProofsAcct Backoff.ProofsExt Backoff.ProofsCtx Backoff.ProofsWorker Backoff.ProofsTree Backoff.ProofsDomain Backoff.ProofsCount.
+From Verif Require Import Backoff.Model Backoff.ProofsBase Backoff.ProofsStep Backoff.ProofsInv Backoff.ProofsAcct Backoff.ProofsExt Backoff.ProofsCtx Backoff.ProofsWorker Backoff.ProofsTree Backoff.ProofsDomain Backoff.ProofsCount Backoff.ProofsFloat Backoff.Examples.
 Import ListNotations.
 Open Scope Z_scope.
 
@@ -188,10 +188,15 @@ Theorem C20_expo_saturates : forall base cap n, 1 <= base -> cap < 2 ^ 62 -> 0 <
 Proof. exact expo_saturates. Qed.
 Print Assumptions C20_expo_saturates.
 
-Theorem C20_expo_arg_exact : forall base n, 0 <= base < 2 ^ 53 -> 0 <= n <= 62 ->
-  exists m ex, base * 2 ^ n = m * 2 ^ ex /\ 0 <= m < 2 ^ 53 /\ 0 <= ex <= 62 /\ base * 2 ^ n < 2 ^ 115.
-Proof. exact expo_arg_exact. Qed.
-Print Assumptions C20_expo_arg_exact.
+(* the Go expression int(math.Min(float64(cap), float64(base)*math.Pow(2.0, float64(n)))) written out with IEEE-754
+   binary64 rounding ([go_expo], ProofsFloat.v: round-to-nearest-even to 53 bits, +Inf from 2^1024, Pow = +Inf from
+   n = 1024) equals the model's integer expo for 1 <= base < 2^53, 0 <= cap < 2^53 and EVERY n >= 0 (large n included:
+   the product stays a double while finite, overflows to +Inf, the minimum is then the cap).  Outside that range it
+   is not exact (go_expo_inexact_beyond: float64(2^53+1) = 2^53).  [go_expo] is tied to the code by the differential. *)
+Theorem C20_expo_float_exact : forall base cap n, 1 <= base < 2 ^ 53 -> 0 <= cap < 2 ^ 53 -> 0 <= n ->
+  go_expo base cap n = expo base cap n.
+Proof. exact go_expo_exact. Qed.
+Print Assumptions C20_expo_float_exact.
 
 (* kinds that pass [cfg_okb] (0 < base, 2 <= cap, jitter 1..4, Decorr: max(2,base) <= cap and base not from vars):
    the jitter draw is never from an empty interval (rand.Intn never panics) and, except for FullJitter, every
@@ -350,15 +355,6 @@ Proof. exact stats_thm. Qed.
 Print Assumptions C20_stats_accumulate.
 
 (* ---------- non-vacuity ---------- *)
-Definition ex_env := mkEnv [(4, 600000)] [6].
-Definition txnLock := mkCfg 1 2 100 3000 3 2.
-Definition regionMiss := mkCfg 2 3 2 500 1 3.
-Definition busy := mkCfg 3 4 2000 10000 3 4.
-(* the regression scenario of the fixed UpdateUsingForked defect: budget 400, 525 ms of txnLock in a fork,
-   merge, next back-off on the parent reports txnLock's error (id 2) *)
-Definition ex_ops := [ONewVars 1 10; ONew 400 1 0; OFork 0;
-                      OBackoff 1 txnLock (-1) 1 75; OBackoff 1 txnLock (-1) 2 150; OBackoff 1 txnLock (-1) 3 300;
-                      OMerge 0 1].
 Example ex_longest_after_merge :
   snd (step ex_env (run ex_env init_world ex_ops) (OBackoff 0 regionMiss (-1) 4 2)) = RExceeded [Some 2].
 Proof. vm_compute. reflexivity. Qed.
@@ -453,4 +449,7 @@ Example ex_keepgoing :
   snd (step ex_env (run ex_env init_world [ONewVars 1 10; ONew 400 1 0; OKeepGoing 0; OKill 1 7]) (OBackoff 0 txnLock (-1) 1 75)) = ROk 75 /\
   snd (step ex_env w (OBackoff 1 txnLock (-1) 5 600)) = RExceeded [Some 2] /\
   snd (step ex_env (run ex_env init_world [ONewVars 1 10; ONew 400 1 0; OKill 1 7]) (OBackoff 0 txnLock (-1) 1 75)) = RKilled 75 7.
+Proof. vm_compute. repeat split. Qed.
+Example ex_expo_float : go_expo 100 3000 3 = 800 /\ go_expo 100 3000 2000 = 3000 /\ go_expo (2 ^ 53 - 1) (2 ^ 53 - 1) 1023 = 2 ^ 53 - 1 /\
+  go_expo 2 (2 ^ 53 + 1) 60 = 2 ^ 53.
 Proof. vm_compute. repeat split. Qed.
